@@ -26,7 +26,11 @@ package combin
 //@ writes nothing
 //@ ensures len(dims) == 0 ==> result == 0
 //@ ensures len(dims) > 0 ==> result == tp(dims, 0, len(dims))
+//@ ensures result >= 0
+//@ ensures len(dims) > 0 && posdims(dims) ==> result >= 1
 //@ loop 1: invariant card * tp(dims, it, len(dims)) == tp(dims, 0, len(dims)) && forall(k, 0, it, dims[k] >= 0)
+//@ invariant card >= 0
+//@ invariant posdims(dims) ==> card >= 1
 
 // IdxFor: panics exactly when a dimension is not positive or a subscript is outside its
 // dimension; otherwise the result is the row-major linear index, inside [0, product of dims).
@@ -78,3 +82,192 @@ package combin
 //@ writes nothing
 //@ ensures result == rising(n-k+1, n)
 //@ loop 1: invariant n-k+1 <= i && p == rising(n-k+1, i-1)
+
+// ---- binomial coefficients ------------------------------------------------------
+//
+// cb(m, i) is the product/quotient the documentation defines the coefficient by, in the
+// order in which it can be evaluated in integers: cb(m, 0) = 1, cb(m, i) = (m+i)*cb(m, i-1)/i,
+// i.e. C(m+i, i) = (m+1)(m+2)...(m+i)/i!. Binomial(n, k) is cb(n-j, j) for the smaller j of
+// k and n-k (the documented symmetry C(n,k) = C(n,n-k)); integers are mathematical (no
+// overflow, as documented "No check is made for overflow").
+//@ spec rec cb(m int, i int) int decreases i = ite(i <= 0, 1, (m+i) * cb(m, i-1) / i)
+//@ spec ksym(n int, k int) int = ite(k > n/2, n-k, k)
+
+//@ func Binomial props: C20
+//@ valid n >= 0 && k >= 0 && k <= n
+//@ panics iff !valid, before-writes
+//@ writes nothing
+//@ ensures result == cb(n - ksym(n, k), ksym(n, k))
+//@ ensures result >= 1
+//@ ensures k == 0 || k == n ==> result == 1
+//@ ensures k == 1 || k == n-1 ==> result == n
+//@ loop 1: invariant 1 <= i && b == cb(n-k, i-1) && b >= 1
+
+//@ func LogGeneralizedBinomial props: C20
+//@ floats: ieee
+//@ valid !(n < 0) && !(k < 0) && !(n < k)
+//@ panics iff !valid, before-writes
+//@ writes nothing
+
+//@ func GeneralizedBinomial props: C20
+//@ floats: ieee
+//@ option delegate-panics
+//@ valid !(n < 0) && !(k < 0) && !(n < k)
+//@ panics iff !valid, before-writes
+//@ writes nothing
+
+// ---- combinations ---------------------------------------------------------------
+//
+// A k-combination of [0,n) is stored as a strictly increasing slice of k values in [0,n).
+//@ spec isComb(s []int, n int, k int) bool = len(s) == k && forall(i, 0, k, 0 <= s[i] && s[i] < n) && forall(i, 1, k, s[i-1] < s[i])
+
+// nextCombination: the in-place successor of a combination is a combination again; the last
+// combination n-k, ..., n-1 is left unchanged, otherwise the last position j that is not at its
+// maximum n+j-k is increased by one, everything before it is kept and the positions after it
+// become consecutive: the lexicographic successor.
+//@ func nextCombination props: C20
+//@ requires 0 <= k && k <= n && isComb(s, n, k)
+//@ writes s[i] for i in 0..k
+//@ ensures len(s) == k
+//@ ensures forall(i, 0, k, 0 <= s[i] && s[i] < n)
+//@ ensures forall(i, 1, k, s[i-1] < s[i])
+//@ ensures [realx] forall(i, 0, k, old(s[i]) == n+i-k) ==> forall(i, 0, k, s[i] == old(s[i]))
+//@ ensures [realx] forall(j, 0, k, old(s[j]) != n+j-k && forall(m, j+1, k, old(s[m]) == n+m-k) ==> s[j] == old(s[j])+1)
+//@ ensures [realx] forall(j, 0, k, old(s[j]) != n+j-k && forall(m, j+1, k, old(s[m]) == n+m-k) ==> forall(m, 0, j, s[m] == old(s[m])))
+//@ ensures [realx] forall(j, 0, k, old(s[j]) != n+j-k && forall(m, j+1, k, old(s[m]) == n+m-k) ==> forall(m, j+1, k, s[m] == s[j]+m-j))
+//@ loop 1: invariant -1 <= j && j <= k-1
+//@ invariant isComb(s, n, k)
+//@ invariant forall(m, j+1, k, s[m] == n+m-k)
+//@ invariant j >= 0 ==> s[j] <= n+j-k
+//@ invariant forall(m, 0, k, s[m] == old(s[m]))
+//@ loop 2: invariant j+1 <= l && l <= k && len(s) == k && 0 <= j
+//@ invariant s[j] <= n+j-k
+//@ invariant forall(m, j, l, s[m] == s[j]+m-j)
+//@ invariant forall(m, 1, l, s[m-1] < s[m])
+//@ invariant forall(m, 0, l, 0 <= s[m] && s[m] < n)
+//@ invariant forall(m, 0, j, s[m] == old(s[m]))
+//@ invariant forall(m, j, j+1, s[m] == old(s[m])+1)
+//@ invariant forall(m, j+1, k, old(s[m]) == n+m-k)
+
+// CombinationGenerator: n, k are fixed by the constructor; previous is nil until the first
+// successful Next and afterwards holds the current combination (representation invariant:
+// a strictly increasing k-subset of [0,n)); remaining counts the combinations not yet
+// produced, -1 once Next has returned false.
+//@ spec cgInv(c *CombinationGenerator) bool = c != nil && 0 <= c.k && c.k <= c.n && c.remaining >= -1 && (c.previous == nil || isComb(c.previous, c.n, c.k))
+
+//@ func NewCombinationGenerator props: C20
+//@ option delegate-panics
+//@ valid n >= 0 && k >= 0 && k <= n
+//@ panics iff !valid, before-writes
+//@ ensures cgInv(result) && fresh(result)
+//@ ensures result.n == n && result.k == k && result.previous == nil
+//@ ensures result.remaining == cb(n - ksym(n, k), ksym(n, k)) && result.remaining >= 1
+
+//@ func CombinationGenerator.Next props: C20
+//@ requires cgInv(c)
+//@ modifies c
+//@ writes c.previous[i] for i in 0..c.k
+//@ ensures cgInv(c) && c.n == old(c.n) && c.k == old(c.k)
+//@ ensures result == (old(c.remaining) > 0)
+//@ ensures result ==> c.remaining == old(c.remaining)-1 && c.previous != nil
+//@ ensures !result ==> c.remaining == -1
+//@ ensures result && old(c.previous) == nil ==> forall(i, 0, c.k, c.previous[i] == i)
+//@ loop 1: invariant forall(m, 0, it, c.previous[m] == m)
+//@ invariant len(c.previous) == c.k && c.previous != nil
+
+//@ func CombinationGenerator.Combination props: C20
+//@ requires cgInv(c)
+//@ valid c.remaining != -1 && c.previous != nil && (dst == nil || len(dst) == c.k)
+//@ panics iff !valid, before-writes
+//@ writes dst[i] for i in 0..len(dst)
+//@ ensures len(result) == c.k
+//@ ensures dst != nil ==> sameSlice(result, dst)
+//@ ensures forall(i, 0, c.k, result[i] == old(c.previous[i]))
+
+// ---- Cartesian generator --------------------------------------------------------
+//
+// CartesianGenerator enumerates the box [0,lens[0]) x ... x [0,lens[d-1]) (all lengths positive,
+// at least one dimension) by its row-major index: idx == -1 initially, 0 <= idx < rows while a
+// product is current, idx == rows once exhausted; rows is the product of the lengths.
+//@ spec cartInv(g *CartesianGenerator) bool = g != nil && len(g.lens) >= 1 && posdims(g.lens) && g.rows == tp(g.lens, 0, len(g.lens)) && g.rows >= 1 && -1 <= g.idx && g.idx <= g.rows
+
+// NewCartesianGenerator is documented to panic unless all values in lens are positive.
+// FINDING: a zero length is accepted: NewCartesianGenerator([]int{2, 0, 3}) does not panic (Card
+// only rejects negative lengths) and yields a generator with rows == 0 whose Next is false at
+// once. The contract below is therefore stated for the narrower set of non-negative lengths the
+// code rejects/accepts consistently (valid == no negative length); the documented clause
+// "panics iff !forall(k, 0, len(lens), lens[k] > 0)" fails (panic.must at the return).
+//@ func NewCartesianGenerator props: C20
+//@ option delegate-panics
+//@ valid forall(k, 0, len(lens), lens[k] >= 0)
+//@ panics iff !valid, before-writes
+//@ ensures fresh(result) && result.idx == -1 && sameSlice(result.lens, lens)
+//@ ensures len(lens) >= 1 ==> result.rows == tp(lens, 0, len(lens))
+//@ ensures len(lens) >= 1 && posdims(lens) ==> cartInv(result)
+
+//@ func CartesianGenerator.Next props: C20
+//@ requires cartInv(g)
+//@ modifies g
+//@ ensures cartInv(g) && sameSlice(g.lens, old(g.lens)) && g.rows == old(g.rows)
+//@ ensures result == (old(g.idx)+1 < g.rows)
+//@ ensures result ==> g.idx == old(g.idx)+1
+//@ ensures !result ==> g.idx == g.rows
+
+// Product: panics exactly when there is no current product (Next not yet called, or exhausted) or
+// a non-nil dst has the wrong length; otherwise the result lies inside the box and is the
+// subscript of the current index (so successive products are distinct and enumerate the box).
+//@ func CartesianGenerator.Product props: C20
+//@ option delegate-panics
+//@ requires cartInv(g) && (dst == nil || dst.rid != g.lens.rid)
+//@ valid 0 <= g.idx && g.idx < g.rows && (dst == nil || len(dst) == len(g.lens))
+//@ panics iff !valid
+//@ writes dst[k] for k in 0..len(g.lens)
+//@ ensures len(result) == len(g.lens)
+//@ ensures forall(k, 0, len(g.lens), 0 <= result[k] && result[k] < g.lens[k])
+//@ ensures plin(result, g.lens, len(g.lens), len(g.lens)) == g.idx
+
+// ---- permutation generator -----------------------------------------------------
+//
+// NewPermutationGenerator: documented panics; the generator starts before the first permutation
+// and counts NumPermutations(n, k) = n(n-1)...(n-k+1) of them. Permutation: panics exactly when
+// there is no current permutation (idx == -1 before the first Next, idx == nPerm after Next has
+// returned false) or a non-nil dst has the wrong length; otherwise it copies the current one.
+//@ func NewPermutationGenerator props: C20
+//@ option delegate-panics
+//@ valid n >= 0 && k >= 0 && k <= n
+//@ panics iff !valid, before-writes
+//@ ensures fresh(result) && result.n == n && result.k == k && result.idx == -1 && len(result.permutation) == k
+//@ ensures result.nPerm == rising(n-k+1, n)
+
+//@ func PermutationGenerator.Permutation props: C20
+//@ requires p != nil && len(p.permutation) == p.k
+//@ valid p.idx != p.nPerm && p.idx != -1 && (dst == nil || len(dst) == p.k)
+//@ panics iff !valid, before-writes
+//@ writes dst[i] for i in 0..len(dst)
+//@ ensures len(result) == p.k
+//@ ensures dst != nil ==> sameSlice(result, dst)
+//@ ensures forall(i, 0, p.k, result[i] == old(p.permutation[i]))
+
+// ---- not under contract ---------------------------------------------------------
+//
+// CombinationIndex. FINDING (reproduced with a Go program on the unchanged code): the
+// documentation says "CombinationIndex panics if comb is not a sorted combination of the first
+// [0,n) integers", but the elements are never compared with 0 or n:
+//     CombinationIndex([]int{5}, 3, 1)     == 2    (no panic)
+//     CombinationIndex([]int{-1}, 3, 1)    == -1   (no panic, outside [0, Binomial(n,k)-1])
+//     CombinationIndex([]int{-3, 1}, 4, 2) == -12  (no panic)
+// With the documented contract
+//     valid n >= 0 && k >= 0 && k <= n && isComb(comb, n, k) / panics iff !valid / ensures 0 <= result
+// the verifier answers sat for panic.must at the return (combin.go:228) and for the range clause.
+// The block is left out instead of being weakened; it also cannot end ok for an engine reason:
+// the function-local map `contains` is reported as "modifies: only declared heap objects
+// change: M_map_int_struct__$dom / $len", and the map model does not derive len(contains) == k
+// from strict monotonicity (panic.none for "comb contains non-unique elements" is sat).
+//
+// IndexToCombination: OUTSIDE-SUBSET "call to sort.Search: no contract and no body" (closure).
+// PermutationIndex:   OUTSIDE-SUBSET "call to sort.Sort: no contract and no body".
+// IndexToPermutation, PermutationGenerator.Next: depend on IndexToCombination (no contract can
+// be checked for it), so the index-range precondition of the call cannot be discharged.
+// Combinations, Permutations, Cartesian: OUTSIDE-SUBSET "slice of non-scalar element []int".
+// equalPermutationIndex / indexToEqualPermutation: need fact(m) >= 1 and idx < fact(len(dst)),
+// i.e. facts about the recursive spec that require induction (div by factorial(...) is sat).
